@@ -826,7 +826,7 @@ func (h *vC09H) run(fe vC09Fetch, fl vC09Faults) {
 	if out == 1 && !fe.drop {
 		h.bad = "loopback query failed although the server was answering"
 	}
-	if fe.drop && asked == 0 && fl.tread != 1 {
+	if fe.drop && asked == 0 && fl.tread == 0 && !fl.sread {
 		h.bad = "no query reached the scripted root"
 	}
 	nrev := taRevoked.Value() - revBefore
@@ -1251,6 +1251,22 @@ func (h *vC09H) scenario(kind string) {
 		h.run(h.honest(), vC09Faults{})
 		h.publish(b)
 		h.run(h.honest(), vC09Faults{})
+		if r.Intn(3) == 0 {
+			// the key is withdrawn while its hold-down expires between two refreshes: the first
+			// accepted refresh after expiry does not contain it
+			h.advance(30*vC09Day + []int64{1, 60, vC09Day, 5 * vC09Day}[r.Intn(4)])
+			if r.Intn(3) == 0 {
+				h.restart(h.pickConfig(&next))
+			}
+			h.unpublish(b)
+			h.run(h.honest(), vC09Faults{})
+			h.run(h.honest(), vC09Faults{})
+			if r.Intn(2) == 0 {
+				h.publish(b)
+				h.run(h.honest(), vC09Faults{})
+			}
+			return
+		}
 		h.advance(int64(1+r.Intn(20)) * vC09Day)
 		h.unpublish(b)
 		fl := vC09Faults{}
